@@ -91,7 +91,8 @@ def rules(ctx, tier):
     r = Rule("R5", "no second copy: the read view reports the confined fields themselves",
              "known_blobs / stats are served from a cache that can be stale")
     c01.view_methods(ctx, r)
-    r.need(6, "read-view accessors")
+    stats_provenance(ctx, r)
+    r.need(7, "read-view accessors + the statistics accessors of the API")
     out.append(r.finish())
     return out
 
@@ -178,3 +179,69 @@ def _distinct_by_hash(ctx, b, sl, leaves):
                     all(h for (_, h) in comps["sort"]):
                 return "list sorted and de-duplicated on the same hash component"
     return None
+
+
+def stats_provenance(ctx, r):
+    """Every API function that returns the statistics struct returns the `stats` field of the guarded state itself, read
+    through an acquisition of the state lock (or through a guard / state reference it was handed) - not a copy kept
+    elsewhere."""
+    from ..prov import expand_down
+    prog = ctx.prog
+    A = ctx.anchors
+    state = A.get("STATE")
+    if state not in prog.adts:
+        r.bad("stats-accessors", None, "state struct not found")
+        return
+    n = 0
+    # the statistics struct: the type of the state field that (transitively) holds the counters the apply step updates
+    fam = ctx.apply_family()
+    counter_structs = set(w.field[1] for w in ctx.world.field_writes if w.body.path in fam
+                          and prog.ty_str(ctx.world._field_ty(w.field)) in ("u64", "usize", "u32", "i64"))
+    counter_structs.discard(state)
+    stat_fields = {}
+    for f in prog.adts[state]["variants"][0]["fields"]:
+        d = prog.adt_of(f["ty"])[0]
+        if d in prog.adts and (d in counter_structs or prog.find_in_type(
+                f["ty"], lambda t: t.get("k") == "adt" and t.get("def") in counter_structs)):
+            stat_fields[f["name"]] = d
+    for b in ctx.api_roots():
+        if b.is_closure or b.raw.get("impl_trait"):
+            continue
+        rt = prog.adt_of(b.locals[0])[0]
+        sf = [nm for nm, d in stat_fields.items() if d == rt and rt is not None]
+        if not sf or prog.types[prog.strip_refs(b.locals[0])].get("k") != "adt" or b.argc < 1:
+            continue
+        if prog.types[b.locals[0]].get("k") == "ref":
+            continue
+        sl = Slicer(ctx.world, b)
+        lv = expand_down(ctx.world, b, sl.leaves_of_place({"l": 0, "p": []}))
+        bad = []
+        for l in lv:
+            path = l[-1] if l[0] == "call" else l[2]
+            ends_in_stats = bool(path) and path[-1] in sf
+            if l[0] == "call":
+                lb = prog.bodies[l[2][0]] if isinstance(l[2], tuple) else b
+                bb = l[2][1] if isinstance(l[2], tuple) else l[2]
+                t = lb.blocks[bb]["term"]
+                nm = (l[1] or "").split("::")[-1]
+                recv = prog.ty_str(ctx.world._place_ty(lb, place_of(t["args"][0]))) if t["args"] and place_of(t["args"][0]) else ""
+                locks_state = nm in ("read", "write", "try_read", "upgradable_read", "read_recursive") and "RwLock" in (l[1] or "") \
+                    and state.split("::")[-1] in recv
+                if not (ends_in_stats and locks_state):
+                    bad.append(l)
+            elif l[0] in ("param", "xparam"):
+                from .c06 import leaf_root_adt
+                rootty = leaf_root_adt(prog, b, l)
+                holds_state = rootty == state or (rootty in prog.adts and any(
+                    state.split("::")[-1] in prog.ty_str(f["ty"]) for v in prog.adts[rootty]["variants"] for f in v["fields"]))
+                if not (ends_in_stats and holds_state):
+                    bad.append(l)
+            else:
+                bad.append(l)
+        n += 1
+        r.check(bool(lv) and not bad, "stats-source:%s" % stable_path(b), b,
+                "%s returns the guarded state's own %s (%s)" % (b.path, "/".join(sf), ", ".join(sorted(fmt_leaf(l) for l in lv))),
+                "%s returns statistics with origins %s: not (only) the `%s` field of the state read under the state lock - a "
+                "copy kept elsewhere goes stale while operations complete" % (
+                    b.path, sorted(fmt_leaf(l) for l in bad), "/".join(sf)))
+    r.check(n >= 1, "stats-accessors", None, "%d statistics accessor(s) judged" % n, "no API function returns the statistics struct")
